@@ -1,8 +1,14 @@
-(* Properties/C08.v — mathx special functions.  ONLY statements. *)
+(* Properties/C08.v — mathx special functions (Choose, Lchoose, BetaInc, GammaInc, Beta, Sign).
+   ONLY statements; each is closed by [exact] of a lemma from Proofs/Mathx.v (exact model,
+   over Z / Q: closed under the global context), Proofs/MathxR.v, Proofs/BetaR.v or
+   Proofs/GammaR.v (over the reals: the stdlib real axioms). *)
+From Coq Require Import Reals QArith Qreals.
 From MM Require Import Base.Num Model.Mathx Proofs.Mathx.
+From MM Require Import RealSpec.Beta RealSpec.Gamma Proofs.BetaR Proofs.GammaR Proofs.MathxR.
 Local Open Scope Z_scope.
 
-(* Sign returns -1, 0, 1 or NaN according to the sign of its argument. *)
+(* ---------------- Sign ---------------- *)
+(* "Sign returns -1, 0, 1 or NaN" according to the sign of its argument. *)
 Theorem C08_sign_cases : forall x : xreal,
   match x with
   | XNaN => sign_model x = XNaN
@@ -12,3 +18,248 @@ Theorem C08_sign_cases : forall x : xreal,
   end.
 Proof. exact sign_cases. Qed.
 Print Assumptions C08_sign_cases.
+
+(* ---------------- Choose / Lchoose ---------------- *)
+(* "Choose(n,k) is the binomial coefficient": the value the model attributes to Choose (exactly
+   returned for n <= 20, approximated by exp(lgamma...) above) is Pascal's C(n,k), for ALL n >= 0. *)
+Theorem C08_choose_is_binomial : forall n k, 0 <= n -> 0 <= k <= n ->
+  choose_value (choose_model n k) = binom (Z.to_nat n) (Z.to_nat k).
+Proof. exact choose_is_binomial. Qed.
+Print Assumptions C08_choose_is_binomial.
+
+(* "exact for n <= 20": the n <= 20 branch involves no exp/lgamma ... *)
+Theorem C08_choose_exact_small : forall n k, 0 <= n <= 20 -> exists z, choose_model n k = CExact z.
+Proof. exact choose_exact_small. Qed.
+Print Assumptions C08_choose_exact_small.
+
+(* ... and the exact value is C(n,k) *)
+Theorem C08_choose_exact_small_value : forall n k, 0 <= n <= 20 -> 0 <= k ->
+  choose_model n k = CExact (binom (Z.to_nat n) (Z.to_nat k)).
+Proof. exact choose_exact_small_value. Qed.
+Print Assumptions C08_choose_exact_small_value.
+
+(* ... and its int64 product never wraps around (the only role of the bound 20) ... *)
+Theorem C08_choose_small_no_overflow : forall n k, 0 < k < n -> n <= 20 ->
+  prod_up64 (n - (k - 1)) (Z.to_nat k) 1 = prod_up (n - (k - 1)) (Z.to_nat k) 1 /\
+  0 <= prod_up (n - (k - 1)) (Z.to_nat k) 1 < 2 ^ 63.
+Proof. exact choose_small_no_overflow. Qed.
+Print Assumptions C08_choose_small_no_overflow.
+
+(* ... the bound is sharp: at n = 21 the product does wrap. *)
+Theorem C08_choose_small_overflows_at_21 :
+  exists k, 0 < k < 21 /\ prod_up64 (21 - (k - 1)) (Z.to_nat k) 1 <> prod_up (21 - (k - 1)) (Z.to_nat k) 1.
+Proof. exact choose_small_overflows_at_21. Qed.
+Print Assumptions C08_choose_small_overflows_at_21.
+
+(* the integer product / factorial of choose.go:36-41 is C(n,k) k! / k!, for ALL n, k:
+   the truncating division is exact. *)
+Theorem C08_falling_factorial_div : forall n k : nat,
+  prod_up (Z.of_nat n - (Z.of_nat k - 1)) k 1 = binom n k * factZ k.
+Proof. exact falling_factorial_div_all. Qed.
+Print Assumptions C08_falling_factorial_div.
+
+(* the multiplicative row recurrence with exact division, from which the checker reads the
+   reference value for n > 20, is Pascal's triangle. *)
+Theorem C08_binomZ_correct : forall n k : nat, binomZ n k = binom n k.
+Proof. exact binomZ_correct_all. Qed.
+Print Assumptions C08_binomZ_correct.
+
+(* "0 for k<0 or k>n" *)
+Theorem C08_choose_out_of_range : forall n k, 0 <= n -> (k < 0 \/ n < k) -> choose_model n k = CExact 0.
+Proof. exact choose_out_of_range. Qed.
+Print Assumptions C08_choose_out_of_range.
+
+(* "symmetric in k and n-k" *)
+Theorem C08_choose_symmetric : forall n k, 0 <= n -> 0 <= k <= n ->
+  choose_value (choose_model n k) = choose_value (choose_model n (n - k)).
+Proof. exact choose_symmetric. Qed.
+Print Assumptions C08_choose_symmetric.
+
+(* "Lchoose is its logarithm (NaN out of range)" *)
+Theorem C08_lchoose_is_log_choose : forall n k, 0 <= n ->
+  (0 < k < n -> lchoose_model n k = LLogOf (choose_value (choose_model n k))) /\
+  ((k = 0 \/ k = n) -> lchoose_model n k = LZero /\ choose_value (choose_model n k) = 1) /\
+  ((k < 0 \/ n < k) -> lchoose_model n k = LNaN).
+Proof. exact lchoose_is_log_choose. Qed.
+Print Assumptions C08_lchoose_is_log_choose.
+
+(* ---------------- BetaInc ---------------- *)
+(* "BetaInc equals the regularized incomplete beta function": the reference the checker uses
+   at integer parameters (the Q model's closed form) IS the ratio of integrals
+   int_0^x t^(a-1)(1-t)^(b-1) dt / int_0^1 ... *)
+Theorem C08_ibeta_int_is_integral : forall (a b : nat) (x : Q), (1 <= a)%nat -> (1 <= b)%nat ->
+  (0 <= x <= 1)%Q -> Q2R (ibeta_int a b x) = Ibeta_R (Q2R x) (INR a) (INR b).
+Proof. exact ibeta_int_is_integral. Qed.
+Print Assumptions C08_ibeta_int_is_integral.
+
+(* "lies in [0,1]" — for the model *)
+Theorem C08_ibeta_int_range : forall (a b : nat) (x : Q), (1 <= a)%nat -> (1 <= b)%nat ->
+  (0 <= x <= 1)%Q -> (0 <= ibeta_int a b x <= 1)%Q.
+Proof. exact ibeta_int_range. Qed.
+Print Assumptions C08_ibeta_int_range.
+
+(* "is non-decreasing in x" — for the model *)
+Theorem C08_ibeta_int_monotone : forall (a b : nat) (x y : Q), (1 <= a)%nat -> (1 <= b)%nat ->
+  (0 <= x <= y)%Q -> (y <= 1)%Q -> (ibeta_int a b x <= ibeta_int a b y)%Q.
+Proof. exact ibeta_int_monotone. Qed.
+Print Assumptions C08_ibeta_int_monotone.
+
+(* "satisfies BetaInc(x,a,b)+BetaInc(1-x,b,a)=1" — for the model *)
+Theorem C08_ibeta_int_reflection : forall (a b : nat) (x : Q), (1 <= a)%nat -> (1 <= b)%nat ->
+  (0 <= x <= 1)%Q -> (ibeta_int a b x + ibeta_int b a (1 - x) == 1)%Q.
+Proof. exact ibeta_int_reflection. Qed.
+Print Assumptions C08_ibeta_int_reflection.
+
+(* "is 0 at x=0 and 1 at x=1" — for the model (directly on the Q sum) *)
+Theorem C08_ibeta_int_ends : forall a b : nat, (1 <= a)%nat -> (1 <= b)%nat ->
+  (ibeta_int a b 0 == 0 /\ ibeta_int a b 1 == 1)%Q.
+Proof. exact ibeta_int_ends. Qed.
+Print Assumptions C08_ibeta_int_ends.
+
+(* the integer-arithmetic evaluation the checker runs equals the closed form (every division
+   of its recurrence is exact) *)
+Theorem C08_ibeta_int_fast_correct : forall (a b : nat) (x : Q), (1 <= a)%nat -> (1 <= b)%nat ->
+  (0 <= x <= 1)%Q -> (ibeta_int_fast a b x == ibeta_int a b x)%Q.
+Proof. exact ibeta_int_fast_correct. Qed.
+Print Assumptions C08_ibeta_int_fast_correct.
+
+(* the same laws for the ratio of integrals itself at REAL parameters a, b >= 1:
+   range, monotonicity, reflection, end values *)
+Theorem C08_ibeta_real_laws : forall a b x y : R, (1 <= a)%R -> (1 <= b)%R ->
+  ((0 <= x <= 1 -> 0 <= Ibeta_R x a b <= 1) /\
+   (0 <= x <= y -> y <= 1 -> Ibeta_R x a b <= Ibeta_R y a b) /\
+   (0 <= x <= 1 -> Ibeta_R x a b + Ibeta_R (1 - x) b a = 1) /\
+   Ibeta_R 0 a b = 0 /\ Ibeta_R 1 a b = 1)%R.
+Proof. exact ibeta_real_laws. Qed.
+Print Assumptions C08_ibeta_real_laws.
+
+(* "branch choice x<(a+1)/(a+b+2) and symmetry transform" (beta.go:27-52): whatever the
+   continued fraction cf and the prefactor bt are, if bt*cf/a represents I and bt is invariant
+   under (x,a,b) -> (1-x,b,a), BOTH branches return I_x(a,b). *)
+Theorem C08_betainc_branches_agree : forall I bt cf : R -> R -> R -> R,
+  (forall x a b : R, 0 <= x <= 1 -> 0 < a -> 0 < b -> bt x a b * cf x a b / a = I x a b)%R ->
+  (forall x a b : R, bt x a b = bt (1 - x) b a)%R ->
+  (forall x a b : R, 0 <= x <= 1 -> 0 < a -> 0 < b -> I x a b + I (1 - x) b a = 1)%R ->
+  forall x a b : R, (0 <= x <= 1)%R -> (0 < a)%R -> (0 < b)%R ->
+  betainc_struct bt cf x a b = Some (I x a b).
+Proof. exact betainc_branches_agree. Qed.
+Print Assumptions C08_betainc_branches_agree.
+
+(* "is 0 at x=0 and 1 at x=1" — the code: at the ends bt = 0, the branch test sends x = 0 to
+   the direct branch (0*cf/a) and x = 1 to the reflected one (1 - 0), for ALL a, b > 0 *)
+Theorem C08_betainc_edges : forall a b : Q, (0 < a)%Q -> (0 < b)%Q ->
+  betainc_end_value 0 a b = Some 0%Q /\ betainc_end_value 1 a b = Some 1%Q.
+Proof. exact betainc_edges. Qed.
+Print Assumptions C08_betainc_edges.
+
+(* "is NaN for x outside [0,1]" *)
+Theorem C08_betainc_nan_outside : forall x a b : Q, (x < 0 \/ 1 < x)%Q -> betainc_branch_of x a b = BNaN.
+Proof. exact betainc_nan_outside. Qed.
+Print Assumptions C08_betainc_nan_outside.
+
+Theorem C08_betainc_struct_nan : forall (bt cf : R -> R -> R -> R) (x a b : R),
+  (x < 0 \/ 1 < x)%R -> betainc_struct bt cf x a b = None.
+Proof. exact betainc_struct_nan. Qed.
+Print Assumptions C08_betainc_struct_nan.
+
+(* ---------------- GammaInc / GammaIncComp ---------------- *)
+(* "sum to 1": on both branches (series for x < a+1, continued fraction otherwise), for ANY
+   series and continued fraction *)
+Theorem C08_gammainc_complement : forall (ser cfq : R -> R -> R) (a x : R),
+  (gammainc_struct ser cfq a x + gammainccomp_struct ser cfq a x = 1)%R.
+Proof. exact gammainc_complement. Qed.
+Print Assumptions C08_gammainc_complement.
+
+(* both branches return P resp. Q = 1 - P when the series represents P and the c.f. Q *)
+Theorem C08_gammainc_branches_agree : forall ser cfq P : R -> R -> R,
+  (forall a x : R, ser a x = P a x) -> (forall a x : R, cfq a x = 1 - P a x)%R ->
+  forall a x : R, (gammainc_struct ser cfq a x = P a x /\ gammainccomp_struct ser cfq a x = 1 - P a x)%R.
+Proof. exact gammainc_branches_agree. Qed.
+Print Assumptions C08_gammainc_branches_agree.
+
+(* "are NaN for a<=0, x<0 or NaN arguments" — and only then, for finite arguments *)
+Theorem C08_gammainc_nan_domain : forall a x : Q,
+  gammainc_branch_of (XFin a) (XFin x) = GNaN <-> (a <= 0 \/ x < 0)%Q.
+Proof. exact gammainc_nan_domain. Qed.
+Print Assumptions C08_gammainc_nan_domain.
+
+Theorem C08_gammainc_nan_args : forall v : xreal,
+  gammainc_branch_of XNaN v = GNaN /\ gammainc_branch_of v XNaN = GNaN /\
+  gammainc_branch_of (XInf true) v = GNaN /\ gammainc_branch_of v (XInf true) = GNaN.
+Proof. exact gammainc_nan_args. Qed.
+Print Assumptions C08_gammainc_nan_args.
+
+(* "equal the regularized lower incomplete gamma function": the reference at a = n+1,
+   1 - e^-x sum_{k<=n} x^k/k!, IS int_0^x e^-t t^n dt / n! *)
+Theorem C08_gamma_closed_form : forall (n : nat) (x : R), Pgamma_nat n x = Pgamma_int n x.
+Proof. exact Pgamma_closed_form. Qed.
+Print Assumptions C08_gamma_closed_form.
+
+(* "sum to 1, are monotone in x" (and lie in [0,1]) for that reference *)
+Theorem C08_gamma_int_laws : forall (n : nat) (x y : R),
+  ((0 <= x -> 0 <= Pgamma_int n x <= 1) /\
+   (0 <= x <= y -> Pgamma_int n x <= Pgamma_int n y) /\
+   Pgamma_int n x + Qgamma_int n x = 1 /\
+   1 - Pgamma_nat n x = Qgamma_int n x)%R.
+Proof. exact gamma_int_laws. Qed.
+Print Assumptions C08_gamma_int_laws.
+
+(* ---------------- Beta ---------------- *)
+(* "Beta(a,b)=Gamma(a)Gamma(b)/Gamma(a+b)": the model's table of Gamma(m/2) obeys
+   Gamma(z+1) = z Gamma(z), Gamma(1/2) = sqrt(pi), and gives (a-1)!(b-1)!/(a+b-1)! at integers *)
+Theorem C08_gamma_half_step : forall m, 3 <= m ->
+  (fst (gamma_half m) == ((m - 2) # 2) * fst (gamma_half (m - 2)))%Q /\
+  snd (gamma_half m) = snd (gamma_half (m - 2)).
+Proof. exact gamma_half_step. Qed.
+Print Assumptions C08_gamma_half_step.
+
+Theorem C08_beta_is_gamma_ratio : forall ma mb,
+  (fst (beta_half ma mb) == fst (gamma_half ma) * fst (gamma_half mb) / fst (gamma_half (ma + mb)))%Q /\
+  snd (beta_half ma mb) = snd (gamma_half ma) && snd (gamma_half mb).
+Proof. exact beta_half_is_gamma_ratio. Qed.
+Print Assumptions C08_beta_is_gamma_ratio.
+
+Theorem C08_beta_gamma_identity_int : forall a b : nat, (1 <= a)%nat -> (1 <= b)%nat ->
+  (fst (beta_half (2 * Z.of_nat a) (2 * Z.of_nat b)) ==
+     inject_Z (factZ (a - 1) * factZ (b - 1)) / inject_Z (factZ (a + b - 1)))%Q /\
+  snd (beta_half (2 * Z.of_nat a) (2 * Z.of_nat b)) = false.
+Proof. exact beta_gamma_identity_int. Qed.
+Print Assumptions C08_beta_gamma_identity_int.
+
+(* ---------------- non-vacuity ---------------- *)
+Example C08_choose_examples :
+  choose_model 20 10 = CExact 184756 /\ choose_model 30 15 = CApprox 155117520 /\
+  choose_model 5 7 = CExact 0 /\ lchoose_model 5 7 = LNaN /\ lchoose_model 30 15 = LLogOf 155117520 /\
+  (* C(1000,500) = 270288240945...799821216320 (300 digits) *)
+  match choose_model 1000 500 with
+  | CApprox z => (z / 10 ^ 288 =? 270288240945) && (z mod 10 ^ 12 =? 799821216320) && (z =? binomZ 1000 500)
+  | CExact _ => false
+  end = true.
+Proof. vm_compute. repeat split; reflexivity. Qed.
+
+(* for NEGATIVE n the Go code (and the model) return 1 when k = n or k = 0; the theorems assume 0 <= n *)
+Example C08_choose_negative_n : choose_model (-1) (-1) = CExact 1.
+Proof. exact choose_negative_n_example. Qed.
+
+Example C08_ibeta_examples :
+  Qred (ibeta_int 2 3 (1 # 2)) = (11 # 16)%Q /\ ibeta_int_fast 2 3 (1 # 2) = (11 # 16)%Q /\
+  betainc_end_value 0 (1 # 2) 3 = Some 0%Q /\ betainc_branch_of (3 # 2) 1 1 = BNaN.
+Proof. vm_compute. repeat split; reflexivity. Qed.
+
+(* Beta(3/2, 5/2) = pi/16, Beta(2, 3) = 1/12, Gamma(7/2) = 15/8 sqrt(pi) *)
+Example C08_beta_examples :
+  beta_half 3 5 = ((1 # 16)%Q, true) /\ beta_half 4 6 = ((1 # 12)%Q, false) /\ gamma_half 7 = ((15 # 8)%Q, true).
+Proof. vm_compute. repeat split; reflexivity. Qed.
+
+Example C08_gammainc_examples :
+  gammainc_branch_of (XFin 2) (XFin (5 # 2)) = GSeries /\ gammainc_branch_of (XFin 2) (XFin 3) = GContFrac /\
+  gammainc_branch_of (XFin 0) (XFin 3) = GNaN.
+Proof. vm_compute. repeat split; reflexivity. Qed.
+
+(* the hypotheses of C08_betainc_branches_agree are jointly satisfiable *)
+Example C08_betainc_struct_hyps_satisfiable :
+  exists I bt cf : R -> R -> R -> R,
+    (forall x a b, 0 <= x <= 1 -> 0 < a -> 0 < b -> bt x a b * cf x a b / a = I x a b)%R /\
+    (forall x a b, bt x a b = bt (1 - x) b a)%R /\
+    (forall x a b, 0 <= x <= 1 -> 0 < a -> 0 < b -> I x a b + I (1 - x) b a = 1)%R.
+Proof. exact betainc_struct_hyps_satisfiable. Qed.
